@@ -619,3 +619,5 @@ add("initial-radius-not-validated-against-the-cap", F, ["C18"], "dfols/solver.py
 # C07-3: inverted guard of a documented invalid-argument class
 add("missing-lipschitz-constant-guard-inverted", F, ["C07"], "dfols/solver.py", "        elif lh is None:\n            exit_info = ExitInformation(EXIT_INPUT_ERROR, \"Must provide lh input if h is not None\")",
     "        elif lh is not None:\n            exit_info = ExitInformation(EXIT_INPUT_ERROR, \"Must provide lh input if h is not None\")", "inverted-guard")
+# C20-2c (recorded finding F20d): the repaired form must be silent
+add("s-non-finite-floats-replaced", S, ["C20"], "dfols/util.py", "    elif isinstance(d, float) and math.isnan(d):\n", "    elif isinstance(d, float) and not math.isfinite(d):\n")
